@@ -82,7 +82,7 @@ Deliver(d) ==
           THEN /\ accepted' = accepted \cup {p.pn}
                /\ delivered' = delivered \cup {p.item}
                /\ unacked' = unacked \ {p.item}          \* the acknowledgement path is not modelled: instantaneous
-               /\ c' = PacketReceived(c1, "srv", "1RTT", p.pn)
+               /\ c' = PacketReceived(c1, "srv", "1RTT", p.pn, TRUE)
           ELSE /\ c' = c1
                /\ UNCHANGED <<accepted, delivered, unacked>>
     /\ UNCHANGED <<nextPn, queue, nd, faults>>
